@@ -11,7 +11,7 @@ from vf.zoo import unit, vec
 
 ID = "C10"
 LEVEL = "exploration"
-BUDGET = {"quick": 4800, "thorough": 96000}
+BUDGET = {"quick": 28800, "thorough": 288000}
 RULE = (
     "Hypothesis draws expression trees (depth <=3 quick / <=4 thorough, size 1-6) over all concrete matrix "
     "classes and constructor options (signs, lower/upper, make_triangular, supplied factor / LU / "
